@@ -10,7 +10,7 @@ MANIFEST = {
             "C10_dispatch_unique / C10_dispatch_none (for pairwise distinguishable candidates every permutation of the listing order dispatches "
             "to the unique accepting candidate), C10_overlap_iff (the decidable predicate is exactly 'some argument type is accepted by both'), "
             "C10_order_matters_without_hypothesis. The full statement (every call of every generated program invokes the right candidate) is NOT "
-            "proved: the compiler as a whole is not modelled. It is searched: generated overload sets x ALL listing orders x 5 styles are compiled "
+            "proved: the compiler as a whole is not modelled. It is searched: generated overload sets x ALL listing orders x 6 styles are compiled "
             "by the real compiler and run, with the property oracle evaluated on the program output.",
     "note": "trusted: Lean kernel; hand transcription of cl/gogen code tied by (T) translator for indexTable/binaryGopNames/overloadFuncName and "
             "(D) differential runs: model encode vs constants/functions in the real generated Go, model decode vs gogen.InitThisGopPkgEx called "
@@ -23,7 +23,7 @@ MANIFEST = {
 
 RULE = ("overload sets of 2..5 candidates (arity 0..3 over 22 types: int,string,float64,bool,[]int,[]string,func types,map,*int and 12 named "
         "types), 78% pairwise distinguishable (decidable predicate shared with the Lean theorem, cross-checked against go/types), styles "
-        "lit/named/mixed/method/binary-operator, names with and without '_'; every set is declared once per permutation of its listing order "
+        "lit/named/mixed/method/binary-operator/class-file (K.gox), names with and without '_'; every set is declared once per permutation of its listing order "
         "(n! declarations) and called with the exact parameter types of each candidate plus assignable variants; + rejected declarations "
         "(invalid method/func/recv, 36 vs 37 entries), calls no candidate accepts, and random gogen scopes/constants (const and no-const path, "
         "missing names, holes, bad digits, 35..38 slots); non-trivial = distinct case line")
